@@ -27,7 +27,7 @@ func (b *builder) trunk(r *gen.Rand, on, n int, tag *int) []int {
 }
 
 // scS28: the mempool holds T; a peer block carries T' = T with another public key and a garbage
-// signature.  attackerFunded: T is signed by key 1 (funded in block 1) and T' names the genesis
+// signature (accepted before repo commit 28243c8, ErrSign since).  attackerFunded: T is signed by key 1 (funded in block 1) and T' names the genesis
 // account; otherwise T is signed by the genesis account and T' names key 1.
 func scS28(r *gen.Rand, name string, attackerFunded bool, extraBad bool) Case {
 	b := newCase(name, r.Bool(), 600, 200)
@@ -298,6 +298,12 @@ func scReorg(r *gen.Rand, name string) Case {
 	o3.salt = 2
 	R2 := b.blk(B3, []int{c}, o3)
 	b.deliver(R2, "p", bc(r))
+	// bb sat on the abandoned branch: EventDelBlock pushed it back into the mempool (unverified).  A
+	// copy of bb with a garbage signature must be refused whether or not the pool already holds bb.
+	o3.salt = 3
+	bbBad := b.again(bb, 0, false, true, "r", 9)
+	R4 := b.blk(B3, []int{bbBad}, o3)
+	b.deliver(R4, "p", bc(r))
 	R3 := b.blk(B3, []int{bb}, o2)
 	b.deliver(R3, "p", bc(r))
 	// and back: branch A grows heavier than B
